@@ -1,24 +1,13 @@
-"""Per-property configuration of ./check (what to build, what runs on both sides)."""
+"""Per-property configuration of ./check: one JSON file per property in checks/props.d/.
 
-HOOK_COMMITS = []
+Keys: translators (python modules in translate/), drivers (lean_exe names), harness (cargo bin names; paired
+with drivers by position), rule, exhaustive, modelled, assumptions, trusted_base, timeout,
+claimed (bool), level_text, level_note, technique, na_reason.
+"""
+import json, os, glob
 
-COMMON_TB = [
-    "Rust type system and all `unsafe` blocks of gluon are outside the model",
-]
-
-PROPS = {
-    "C08": {
-        "translators": [],
-        "drivers": ["drv_c08"],
-        "harness": ["c08"],
-        "rule": "operator chains a0 op1 a1 … opn an over a 6-operator fixity table (precedences 1..3 × "
-                "left/right, so every (precedence relation, associativity) pair occurs): ALL chains with up to "
-                "5 (quick) / 6 (thorough) operators, plus random chains of 1..12 operators incl. an operator "
-                "without fixity; each through the real infix::reparse and the Lean model. Non-trivial = at least "
-                "two operators of two different kinds; distinct = distinct operator sequence.",
-        "exhaustive": True,
-        "modelled": ["LALRPOP grammar tables (trusted)", "tokenizer (only through the round-trip oracle)"],
-        "assumptions": ["the grammar delivers an infix chain right-nested (checked by the text-level oracle)"],
-        "trusted_base": COMMON_TB,
-    },
-}
+HERE = os.path.dirname(os.path.abspath(__file__))
+HOOK_COMMITS = json.load(open(os.path.join(HERE, "hook_commits.json")))
+PROPS = {}
+for f in sorted(glob.glob(os.path.join(HERE, "props.d", "C*.json"))):
+    PROPS[os.path.basename(f)[:-5]] = json.load(open(f))
